@@ -492,6 +492,16 @@ func (tr *trans) call(v ssa.Value, c *ssa.CallCommon, st State) {
 			_ = mc
 		}
 		fc := tr.prog.CS.Funcs[key]
+		// opt opaque_calls=<substring,...>: this caller does not use the contract of these callees (they are
+		// over-approximated by havoc like an uncontracted callee); for callees whose contract speaks about
+		// function-typed arguments that this call site cannot bind
+		if tr.fc != nil && fc != nil {
+			for _, sub := range strings.Split(tr.fc.Opts["opaque_calls"], ",") {
+				if sub = strings.TrimSpace(sub); sub != "" && strings.Contains(key, sub) {
+					fc = nil
+				}
+			}
+		}
 		if fc != nil {
 			csig := callee.Signature
 			var recv *Term
